@@ -316,7 +316,7 @@ class MotionMonitor(Monitor):
                     sample=sample_of(case, tr))
 
 
-BASE = dict(zmoves=True, g92e=True, ext=True, beds=True)
+BASE = dict(zmoves=True, g92e=True, ext=True, beds=True, sentinels=True)
 
 
 def mk(**kw):
@@ -377,7 +377,7 @@ class C03(MotionMonitor):
     assumptions = C01.assumptions
     classes = [(3, "abs-mm-z", mk(arcs=True, at=True)), (3, "relative", mk(rel=True, arcs=True, arcs_rel=True, at=True)),
                (2, "inch", mk(inch=True, arcs=True)),
-               (3, "rel-inch-switching", mk(rel=True, inch=True, arcs=True, spell=True)),
+               (3, "rel-inch-switching", mk(rel=True, inch=True, arcs=True, arcs_rel=True, spell=True, p_arc=0.08)),
                (1, "firmware", mk(fw=True, rel=True)), (1, "g28-mid", mk(g28mid=True, rel=True, inch=True)),
                (0.5, "g92xyz-outside-episodes", mk(g92xyz=True, rel=True, g28mid=True, boost=0.1)),
                (1.5, "arcs-under-g91", mk(rel=True, arcs=True, arcs_rel=True))]
